@@ -12,28 +12,48 @@ import (
 	"golang.org/x/tools/go/ssa"
 )
 
-// storeFields finds the mutex and the map field of SharedStore by type.
-func storeFields(r *Roles) (mu, data int, ok bool) {
-	mu, data = -1, -1
+// storeFields finds the mutex and the map of SharedStore by type, as paths of field indexes:
+// directly in the struct, or inside unexported struct fields held by value (a small state or
+// table struct the store embeds).
+func storeFields(r *Roles) (mu, data []int, ok bool) {
 	if r.SharedStore == nil {
 		return
 	}
-	st, isStruct := r.SharedStore.Underlying().(*types.Struct)
-	if !isStruct {
-		return
-	}
-	for i := 0; i < st.NumFields(); i++ {
-		ft := st.Field(i).Type()
-		if isNamed(ft, "sync", "RWMutex") || isNamed(ft, "sync", "Mutex") {
-			if mu < 0 {
-				mu = i
+	var walk func(t types.Type, path []int, depth int)
+	walk = func(t types.Type, path []int, depth int) {
+		st, isStruct := t.Underlying().(*types.Struct)
+		if !isStruct || depth > 2 {
+			return
+		}
+		for i := 0; i < st.NumFields(); i++ {
+			ft := st.Field(i).Type()
+			p := append(append([]int(nil), path...), i)
+			switch {
+			case isNamed(ft, "sync", "RWMutex") || isNamed(ft, "sync", "Mutex"):
+				if mu == nil {
+					mu = p
+				}
+			default:
+				if _, isMap := ft.Underlying().(*types.Map); isMap {
+					if data == nil {
+						data = p
+					}
+				} else if n, isNamedT := ft.(*types.Named); isNamedT && n.Obj().Pkg() == r.SharedStore.Obj().Pkg() {
+					walk(ft, p, depth+1)
+				}
 			}
 		}
-		if _, isMap := ft.Underlying().(*types.Map); isMap && data < 0 {
-			data = i
-		}
 	}
-	return mu, data, mu >= 0 && data >= 0
+	walk(r.SharedStore, nil, 0)
+	return mu, data, mu != nil && data != nil
+}
+
+// fieldPathAddr builds the address of the field at path inside the object base points to.
+func fieldPathAddr(base *eng.Term, path []int) *eng.Term {
+	for _, i := range path {
+		base = eng.FieldAddr(base, i)
+	}
+	return base
 }
 
 // StoreMon checks one exported method of *SharedStore: locking discipline
@@ -44,8 +64,8 @@ type StoreMon struct {
 	Method string
 	Fn     *ssa.Function
 	Recv   *eng.Term
-	MuIdx  int
-	DatIdx int
+	MuIdx  []int
+	DatIdx []int
 	// Extra: an exported method that is not one of the operations the properties name (the nine
 	// map operations, the typed getters, Bind). It has no effect specification and need not be
 	// one critical section; it must still touch the map only under the store's lock, keep the
@@ -152,8 +172,8 @@ func (s storeState) Rename(sub func(*eng.Term) *eng.Term) eng.MState {
 func (m *StoreMon) Name() string     { return "store" }
 func (m *StoreMon) Init() eng.MState { return storeState{} }
 
-func (m *StoreMon) dataAddr() *eng.Term { return eng.FieldAddr(m.Recv, m.DatIdx) }
-func (m *StoreMon) muAddr() *eng.Term   { return eng.FieldAddr(m.Recv, m.MuIdx) }
+func (m *StoreMon) dataAddr() *eng.Term { return fieldPathAddr(m.Recv, m.DatIdx) }
+func (m *StoreMon) muAddr() *eng.Term   { return fieldPathAddr(m.Recv, m.MuIdx) }
 func (m *StoreMon) mapTerm() *eng.Term  { return eng.Load(m.dataAddr()) }
 
 // isInternal: the term is (or was read from) the store's own map.
@@ -460,7 +480,7 @@ func (m *StoreMon) otherStoreMu(ev *eng.Event) bool {
 		return false
 	}
 	a := ev.Args[0]
-	return a != m.muAddr() && a.K == eng.KFieldAddr && a.I == int64(m.MuIdx) && ev.Fn != nil && ev.Fn.Signature.Recv() != nil &&
+	return a != m.muAddr() && a.K == eng.KFieldAddr && len(m.MuIdx) > 0 && a.I == int64(m.MuIdx[len(m.MuIdx)-1]) && ev.Fn != nil && ev.Fn.Signature.Recv() != nil &&
 		recvName(ev.Fn.Signature.Recv().Type()) == "SharedStore"
 }
 
@@ -717,7 +737,14 @@ func AnalyzeStore(p *load.Program, r *Roles, depth int) *UnitResult {
 			if !rt.Panic && len(rt.Vals) == 1 {
 				c := &eng.Ctx{E: e, St: rt.State}
 				obj := c.Mem(rt.Vals[0])
-				okv = obj.K == eng.KStruct && data < len(obj.A) && obj.A[data].K == eng.KMake
+				for _, k := range data {
+					if obj == nil || obj.K != eng.KStruct || k >= len(obj.A) {
+						obj = nil
+						break
+					}
+					obj = obj.A[k]
+				}
+				okv = obj != nil && obj.K == eng.KMake
 			}
 			col.Check("C14.R2", "NewSharedStore:map-init", okv, rt.Pos, "NewSharedStore must start with a fresh non-nil map", nil)
 		}
